@@ -226,9 +226,12 @@ class TimeIt:
 
   def __enter__(self):
     parent = thread_local.thread_local_get('__timing_context__', None)
+    # Always record the context found on entry (also when there is none): a
+    # TimeIt object used a second time must not restore the parent of its
+    # first use on exit.
+    self._parent = parent
     if parent is not None:
       parent.add(self)
-      self._parent = parent
     thread_local.thread_local_set('__timing_context__', self)
     self.start()
     return self
